@@ -144,7 +144,8 @@ def _stmt(st: ast.stmt, p: Path) -> list[Path]:
     if isinstance(st, ast.If):
         return _seq(st.body, [_branch(p, st.test, True)]) + _seq(st.orelse, [_branch(p, st.test, False)])
     if isinstance(st, (ast.For, ast.AsyncFor, ast.While)):
-        body = _seq(st.body, [Path()])
+        stored = {x.id for x in ast.walk(st) if isinstance(x, ast.Name) and isinstance(x.ctx, (ast.Store, ast.Del))}
+        body = _seq(st.body, [Path(env={k: v for k, v in p.env.items() if k not in stored and v is not None and not (stored & {y.id for y in ast.walk(v) if isinstance(y, ast.Name)})})])
         out = []
         q = p.fork()
         q.add(Loop(st, body))
@@ -279,3 +280,16 @@ def element_calls(path: Path, seq_eval=None, at=None) -> list[tuple[str, str, st
         elif isinstance(e, ast.Expr) and isinstance(e.value, ast.Call) and isinstance(e.value.func, ast.Attribute):
             out.append(("elem", unparse(e.value.func.value), e.value.func.attr))
     return out
+
+
+def loops_of(paths: list[Path]) -> list[Loop]:
+    """The distinct collapsed loops met on the given paths (outermost level), in source order.  Each Loop gets
+    `riter`: the text of its iterable with the locals replaced by what they stand for where the loop starts."""
+    seen: dict[int, Loop] = {}
+    for p in paths:
+        for k, e in enumerate(p.effects):
+            if isinstance(e, Loop) and id(e.node) not in seen:
+                seen[id(e.node)] = e
+                it = getattr(e.node, "iter", None)
+                e.riter = p.res(it, k) if it is not None else None  # type: ignore[attr-defined]
+    return sorted(seen.values(), key=lambda l: getattr(l.node, "lineno", 0))
